@@ -70,7 +70,17 @@ func VerifH_C19_shreddedListsWholeFile() {
 		rows := []verifVarRow{{Vars: []any{pick("v0"), pick("v1")}}, {Vars: []any{pick("v2")}}}
 		buf := new(bytes.Buffer)
 		w := NewGenericWriter[verifVarRow](buf, schema)
-		if _, err := w.Write(rows); err != nil {
+		if vChoose("rowPath", 0, 1) == 1 {
+			// the row path has its own shredder (Schema.Deconstruct)
+			shredded := make([]Row, len(rows))
+			for i := range rows {
+				shredded[i] = schema.Deconstruct(nil, &rows[i])
+			}
+			if _, err := w.WriteRows(shredded); err != nil {
+				vAssert(false, "rows are accepted")
+				return
+			}
+		} else if _, err := w.Write(rows); err != nil {
 			vAssert(false, "rows are accepted")
 			return
 		}
@@ -125,4 +135,103 @@ func VerifH_C19_shreddedListsWholeFile() {
 		vAssert(verifSameAny(rows[i].Var, got[i].Var), "variant values read back as written")
 	}
 	vCover("variant")
+}
+
+// C19.K5: objects shredded on one field ($.a typed, every other field left in
+// the value column), written through the typed path and through the row path
+// (Schema.Deconstruct + WriteRows), read back row-wise and navigated with the
+// columnar VariantReader: every field, shredded or not, reads back as written.
+
+type verifVarObj struct {
+	ID  int32 `parquet:"id"`
+	Var any   `parquet:"var,variant"`
+}
+
+func VerifH_C19_partiallyShreddedObjects() {
+	vUnwind(1 << 16)
+	vAbstractCRCFixedWidth() // page checksums are not the subject
+	shredded, err := ShreddedVariant(Group{"a": Int(64)})
+	if err != nil {
+		vAssert(false, "shredding schema is built")
+		return
+	}
+	schema := NewSchema("table", Group{"id": Int(32), "var": shredded})
+	a0, a1 := int64(vI8("a0")), int64(vI8("a1"))
+	extra := vString("extra", 1)
+	vAssume(extra[0] < 0x80) // variant strings are UTF-8; a lone high byte is not a valid value
+	rows := []verifVarObj{
+		{ID: 0, Var: map[string]any{"a": a0, "extra": extra}},
+		{ID: 1, Var: map[string]any{"a": a1, "extra": "y"}},
+	}
+	if vChoose("thirdRowWithoutExtra", 0, 1) == 1 {
+		rows = append(rows, verifVarObj{ID: 2, Var: map[string]any{"a": int64(3)}})
+	}
+	buf := new(bytes.Buffer)
+	w := NewGenericWriter[verifVarObj](buf, schema)
+	if vChoose("rowPath", 0, 1) == 1 {
+		shredder := make([]Row, len(rows))
+		for i := range rows {
+			shredder[i] = schema.Deconstruct(nil, &rows[i])
+		}
+		if _, err := w.WriteRows(shredder); err != nil {
+			vAssert(false, "rows are accepted")
+			return
+		}
+	} else if _, err := w.Write(rows); err != nil {
+		vAssert(false, "rows are accepted")
+		return
+	}
+	if err := w.Close(); err != nil {
+		vAssert(false, "file closes")
+		return
+	}
+	data := buf.Bytes()
+	back, err := Read[verifVarObj](bytes.NewReader(data), int64(len(data)))
+	vAssert(err == nil && len(back) == len(rows), "rows are read back")
+	for i := range rows {
+		if i >= len(back) {
+			break
+		}
+		got, _ := back[i].Var.(map[string]any)
+		want := rows[i].Var.(map[string]any)
+		vAssert(got != nil && len(got) == len(want), "the object keeps its fields")
+		for k, x := range want {
+			y, ok := got[k]
+			vAssert(ok && verifSameAny(x, y), "every field of a partially shredded object reads back as written")
+		}
+	}
+	// columnar navigation
+	f, err := OpenFile(bytes.NewReader(data), int64(len(data)))
+	if err != nil {
+		vAssert(false, "file opens")
+		return
+	}
+	r, err := NewVariantReader(f.RowGroups()[0], "var")
+	if err != nil {
+		vAssert(false, "variant reader opens")
+		return
+	}
+	defer r.Close()
+	ca, ce := r.Path("a"), r.Path("extra")
+	n, err := r.Next(len(rows))
+	vAssert(err == nil && n == len(rows), "the reader yields every row")
+	if n != len(rows) {
+		return
+	}
+	ints := ca.Int64s()
+	vAssert(len(ints) == len(rows) && ints[0] == a0 && ints[1] == a1, "the shredded field reads back from its typed column")
+	for i := range rows {
+		want, has := rows[i].Var.(map[string]any)["extra"]
+		v, ok, err := ce.Residual(i)
+		if err != nil {
+			vAssert(false, "residual field is readable")
+			return
+		}
+		vAssert(ok == has, "an unshredded field is present exactly where it was written")
+		if ok && has {
+			s, isStr := v.GoValue().(string)
+			vAssert(isStr && s == want.(string), "an unshredded field of a partially shredded object reads back as written")
+		}
+	}
+	vCover("objects")
 }
